@@ -299,23 +299,37 @@ impl ProcessAccumulator {
       contract="""
         ensures r.wf(), r.txns@.len() == 0,   // @ProcessAccumulator.new.empty_register_empty_balance
 """),
+    U("ReportContext::account", "core/src/report/context.rs", [r"impl<'ctx> ReportContext<'ctx>", r"pub fn account\b"], fn="account", wrap=("impl ReportContext {", "}"), rewrites=[RET()],
+      contract="\n        ensures r == self.accounts.resolved(value@),   // @ReportContext.account.resolves_through_the_store\n"),
+    U("ReportContext::commodity", "core/src/report/context.rs", [r"impl<'ctx> ReportContext<'ctx>", r"pub fn commodity\b"], fn="commodity", wrap=("impl ReportContext {", "}"), rewrites=[RET()],
+      contract="\n        ensures r == self.commodities.resolved(value@),   // @ReportContext.commodity.resolves_through_the_store\n"),
     U("ProcessAccumulator::process", BK, [r"impl<'ctx> ProcessAccumulator<'ctx>", r"fn process\b"], fn="process", wrap=("impl ProcessAccumulator {", "}"),
       rewrites=[RET(),
                 ("R9-stub-path", "re:syntax::(AccountDetail|CommodityDetail)::", "\\1::", None),
                 ("R11-ctor-as-fn", ".map_err(BookKeepError::InvalidAccount)", ".map_err(|e: u8| -> (b: BookKeepError) ensures b == BookKeepError::InvalidAccount(e) { BookKeepError::InvalidAccount(e) })", 2),
                 ("R11-ctor-as-fn", ".map_err(BookKeepError::InvalidCommodity)", ".map_err(|e: u8| -> (b: BookKeepError) ensures b == BookKeepError::InvalidCommodity(e) { BookKeepError::InvalidCommodity(e) })", 2),
-                ("R6c-for-ref-vec", "for cd in &commodity.details {", "for di__ in 0..commodity.details.len() { let cd = &commodity.details[di__];", 1)],
+                ("R6c-for-ref-vec", "for cd in &commodity.details {", "for di__ in 0..commodity.details.len() { let cd = &commodity.details[di__];", 1),
+                ("R6c-for-ref-vec", "for ad in &account.details {", "for ai__ in 0..account.details.len() { let ad = &account.details[ai__];", 1)],
       loops={0: """
                     invariant
                         ctx.accounts.registered(canonical),
                         ctx.accounts.resolved(account.name@) is Some,
                         forall|n: Seq<char>| old(ctx).accounts.resolved(n) is Some ==> ctx.accounts.resolved(n) == old(ctx).accounts.resolved(n),
+                        ctx.accounts.resolved(account.name@) == Some(canonical), ctx.accounts.is_canonical(account.name@),
+                        forall|n: Seq<char>| n != account.name@ ==> ctx.accounts.is_canonical(n) == old(ctx).accounts.is_canonical(n),
+                        forall|n: Seq<char>| (ctx.accounts.is_alias(n) && !old(ctx).accounts.is_alias(n)) ==> ctx.accounts.resolved(n) == Some(canonical),
+                        forall|j: int| 0 <= j < ai__ ==> (#[trigger] account.details@[j] matches AccountDetail::Alias(a) ==>
+                            ((!old(ctx).accounts.is_canonical(a@) && !old(ctx).accounts.is_alias(a@)) ==> ctx.accounts.resolved(a@) == Some(canonical))),
 """, 1: """
                     invariant
                         ctx.commodities.registered(canonical),
                         ctx.commodities.resolved(commodity.name@) is Some,
                         forall|n: Seq<char>| old(ctx).commodities.resolved(n) is Some ==> ctx.commodities.resolved(n) == old(ctx).commodities.resolved(n),
-                        ctx.commodities.resolved(commodity.name@) == Some(canonical),
+                        ctx.commodities.resolved(commodity.name@) == Some(canonical), ctx.commodities.is_canonical(commodity.name@),
+                        forall|n: Seq<char>| n != commodity.name@ ==> ctx.commodities.is_canonical(n) == old(ctx).commodities.is_canonical(n),
+                        forall|n: Seq<char>| (ctx.commodities.is_alias(n) && !old(ctx).commodities.is_alias(n)) ==> ctx.commodities.resolved(n) == Some(canonical),
+                        forall|j: int| 0 <= j < di__ ==> (#[trigger] commodity.details@[j] matches CommodityDetail::Alias(a) ==>
+                            ((!old(ctx).commodities.is_canonical(a@) && !old(ctx).commodities.is_alias(a@)) ==> ctx.commodities.resolved(a@) == Some(canonical))),
                         declared_scale(commodity.details@, di__ as int) matches Some(sc) ==> ctx.commodities.dp(canonical) == Some(sc),
 """},
       body_start="""        let ghost txns_before = self.txns@; let ghost bal_before = self.balance@;""",
@@ -341,6 +355,12 @@ impl ProcessAccumulator {
             // an accepted declaration registers the name as canonical; names known before keep their meaning
             (entry is Account && r is Ok) ==> final(ctx).accounts.resolved(entry->Account_0.name@) is Some,    // @process.account_registered
             (entry is Commodity && r is Ok) ==> final(ctx).commodities.resolved(entry->Commodity_0.name@) is Some,   // @process.commodity_registered
+            // C12: every `alias` line of an accepted declaration that introduces a new name makes that name MEAN the declared account / commodity
+            // (whatever was booked or declared before: the declaration may come after the first use of the canonical name)
+            (entry is Account && r is Ok) ==> forall|k: int| 0 <= k < entry->Account_0.details@.len() ==> (#[trigger] entry->Account_0.details@[k] matches AccountDetail::Alias(a) ==>
+                ((!old(ctx).accounts.is_canonical(a@) && !old(ctx).accounts.is_alias(a@)) ==> final(ctx).accounts.resolved(a@) == final(ctx).accounts.resolved(entry->Account_0.name@))),   // @process.account_alias_means_the_declared_account
+            (entry is Commodity && r is Ok) ==> forall|k: int| 0 <= k < entry->Commodity_0.details@.len() ==> (#[trigger] entry->Commodity_0.details@[k] matches CommodityDetail::Alias(a) ==>
+                ((!old(ctx).commodities.is_canonical(a@) && !old(ctx).commodities.is_alias(a@)) ==> final(ctx).commodities.resolved(a@) == final(ctx).commodities.resolved(entry->Commodity_0.name@))),   // @process.commodity_alias_means_the_declared_commodity
             // C01: the precision of a `format` line is stored for the declared commodity, whatever the sample spells after the number
             (entry is Commodity && r is Ok) ==> (declared_scale(entry->Commodity_0.details@, entry->Commodity_0.details@.len() as int) matches Some(sc) ==>
                 final(ctx).commodities.dp(final(ctx).commodities.resolved(entry->Commodity_0.name@)->Some_0) == Some(sc)),   // @process.declared_precision_is_stored
